@@ -29,6 +29,7 @@ func runSeq(casesPath, obsPath string) error {
 	var id, typ string
 	var order int
 	var keys []string
+	nodump := false
 	for sc.Scan() {
 		line := sc.Text()
 		switch {
@@ -36,6 +37,7 @@ func runSeq(casesPath, obsPath string) error {
 			f := strings.Fields(line)
 			id = f[1]
 			keys = nil
+			nodump = false
 			for _, kv := range f[2:] {
 				p := strings.SplitN(kv, "=", 2)
 				switch p[0] {
@@ -43,6 +45,8 @@ func runSeq(casesPath, obsPath string) error {
 					typ = p[1]
 				case "order":
 					order, _ = strconv.Atoi(p[1])
+				case "nodump":
+					nodump = p[1] == "1"
 				}
 			}
 		case strings.HasPrefix(line, "KEYS"):
@@ -57,7 +61,11 @@ func runSeq(casesPath, obsPath string) error {
 			ops := strings.Split(line[4:], ";")
 			for idx, o := range ops {
 				res, dead := seqOp(t, strings.Fields(o))
-				fmt.Fprintf(w, "%s %d %s | %s locks=%d\n", id, idx, res, safeDump(t), g.VerifHeld)
+				d := "- chain=ok"
+				if !nodump {
+					d = safeDump(t)
+				}
+				fmt.Fprintf(w, "%s %d %s | %s locks=%d\n", id, idx, res, d, g.VerifHeld)
 				if dead {
 					break
 				}
@@ -124,4 +132,94 @@ func seqOp(t *adapter, f []string) (res string, dead bool) {
 		return "pairs=" + strings.Join(got, ","), false
 	}
 	return "badop", true
+}
+
+type scase struct {
+	id, typ string
+	order   int
+	keys    []string
+	ops     []string
+}
+
+func readCases(path string) ([]*scase, error) {
+	in, err := os.Open(path)
+	if err != nil {
+		return nil, err
+	}
+	defer in.Close()
+	sc := bufio.NewScanner(in)
+	sc.Buffer(make([]byte, 1<<20), 1<<28)
+	var cs []*scase
+	var c *scase
+	for sc.Scan() {
+		line := sc.Text()
+		switch {
+		case strings.HasPrefix(line, "CASE "):
+			f := strings.Fields(line)
+			c = &scase{id: f[1]}
+			cs = append(cs, c)
+			for _, kv := range f[2:] {
+				p := strings.SplitN(kv, "=", 2)
+				switch p[0] {
+				case "type":
+					c.typ = p[1]
+				case "order":
+					c.order, _ = strconv.Atoi(p[1])
+				}
+			}
+		case strings.HasPrefix(line, "KEYS"):
+			c.keys = strings.Fields(line)[1:]
+		case strings.HasPrefix(line, "OPS "):
+			c.ops = strings.Split(line[4:], ";")
+		}
+	}
+	return cs, sc.Err()
+}
+
+// runPairs: consecutive cases are run on two trees obtained from the same constructor, their operations
+// interleaved one by one; each tree must behave as if it were alone (C12: trees share no state).
+func runPairs(casesPath, obsPath string) error {
+	cs, err := readCases(casesPath)
+	if err != nil {
+		return err
+	}
+	out, err := os.Create(obsPath)
+	if err != nil {
+		return err
+	}
+	w := bufio.NewWriterSize(out, 1<<20)
+	defer func() { w.Flush(); out.Close() }()
+	for i := 0; i+1 < len(cs); i += 2 {
+		a, b := cs[i], cs[i+1]
+		g.VerifHeld = 0
+		ta, err := newTree(a.typ, a.order, a.keys)
+		if err != nil {
+			return err
+		}
+		tb, err := newTree(b.typ, b.order, b.keys)
+		if err != nil {
+			return err
+		}
+		var la, lb []string
+		deadA, deadB := false, false
+		for j := 0; j < len(a.ops) || j < len(b.ops); j++ {
+			if j < len(a.ops) && !deadA {
+				res, dead := seqOp(ta, strings.Fields(a.ops[j]))
+				la = append(la, fmt.Sprintf("%s %d %s | %s locks=%d", a.id, j, res, safeDump(ta), g.VerifHeld))
+				deadA = dead
+			}
+			if j < len(b.ops) && !deadB {
+				res, dead := seqOp(tb, strings.Fields(b.ops[j]))
+				lb = append(lb, fmt.Sprintf("%s %d %s | %s locks=%d", b.id, j, res, safeDump(tb), g.VerifHeld))
+				deadB = dead
+			}
+		}
+		for _, l := range la {
+			fmt.Fprintln(w, l)
+		}
+		for _, l := range lb {
+			fmt.Fprintln(w, l)
+		}
+	}
+	return nil
 }
